@@ -152,7 +152,7 @@ bool buildModel(Model& m, const NiVersion& ver, Slot slot, const std::vector<std
 			m.nif.DeleteShader(s);   // GetTextureSlot prefers a shader's texture set over the texturing property
 			s = m.nif.FindBlockByName<NiShape>(name);
 			auto tp = std::make_unique<NiTexturingProperty>();
-			tp->textureCount = 10;
+			tp->textureCount = hdr.GetVersion().File() >= V20_2_0_5 ? 12 : 10;   // from 20.2.0.5 on the last two decal slots are only stored when the count exceeds 10 / 11
 			bool* has[10] = {&tp->hasBaseTex, &tp->hasDarkTex, &tp->hasDetailTex, &tp->hasGlossTex, &tp->hasGlowTex, &tp->hasBumpTex, &tp->hasDecalTex0, &tp->hasDecalTex1, &tp->hasDecalTex2, &tp->hasDecalTex3};
 			TexDesc* td[10] = {&tp->baseTex, &tp->darkTex, &tp->detailTex, &tp->glossTex, &tp->glowTex, &tp->bumpTex, &tp->decalTex0, &tp->decalTex1, &tp->decalTex2, &tp->decalTex3};
 			for (size_t k = 0; k < 10 && i + k < n; k++) {
@@ -277,6 +277,7 @@ void runCurated() {
 	for (const char* vn : {"OB", "FO3", "SK", "SSE", "FO4", "FO76"}) checkBatch(paths, *findVer(vn), TEXSET);
 	for (const char* vn : {"SK", "SSE", "FO4"}) checkBatch(paths, *findVer(vn), EFFECT);
 	checkBatch(paths, *findVer("OB"), SOURCE);
+	checkBatch(paths, *findVer("FO3"), SOURCE);   // same blocks, file names in the header string table instead of inline
 	R_sample(fmt("{\"kind\":\"curated\",\"in\":\"%s\",\"model_SK\":\"%s\",\"model_OB\":\"%s\"}", jesc(CURATED[4]).c_str(), jesc(pathModel(CURATED[4], false, false)).c_str(), jesc(pathModel(CURATED[4], true, false)).c_str()));
 }
 
@@ -307,6 +308,7 @@ void run(size_t idx) {
 	if (variant % 3 == 0) checkBatch(sub, vEff, EFFECT);
 	if (variant % 3 == 1) checkBatch(sub, *findVer("OB"), SOURCE);
 	if (variant % 9 == 2) checkBatch(sub, *findVer("FO3"), TEXSET);
+	if (variant % 3 == 2) checkBatch(sub, *findVer("FO3"), SOURCE);
 	if (variant % 9 == 5) checkBatch(sub, *findVer("SSE"), EFFECT);
 	if (idx == 3) R_sample(fmt("{\"kind\":\"token strings\",\"example_in\":\"%s\",\"example_model_out_SK\":\"%s\"}", jesc(paths[5]).c_str(), jesc(pathModel(paths[5], false, false)).c_str()));
 	if (idx == enumCases) R_sample(fmt("{\"kind\":\"random\",\"example_in_hex\":\"%s\",\"length\":%zu}", hexs(paths[0], 40).c_str(), paths[0].size()));
